@@ -96,7 +96,7 @@ PROPS = {
                 'tiling of every node by its children and root range; token level: consumed tokens = input tokens, balanced steps',
         'trusted_base': ['as C01; rowan ranges are derived from leaf lengths (the model tree stores no ranges)'],
         'assumptions': ['as C01'],
-        'partial': ['that the builder ends at the end of the token table (is_eof) is not proved; checked on the implementation by the oracle'],
+        'partial': ['node ranges are not part of the model tree (a range is the span of the leaves below a node); rowan\'s range arithmetic is trusted'],
     },
     'C11': {
         'coq': 'Props/C11.v',
